@@ -16,7 +16,7 @@ Lemma lock_is_spec_str fx net d :
   out_is (lib_out_addr_str H160 fx net (spec_address net d))
          (spec_lock_script d) (stype_name (d_stype d)) (nw_name net) OaGiven.
 Proof.
-  intros Hn Hstd Hg. destruct fx as [fw fn fp]. cbn [fx_witver] in Hg.
+  intros Hn Hstd Hg. destruct fx as [fw fn fp tb0]. cbn [fx_witver] in Hg.
   std_shapes d Hstd; (each_net Hn; (destruct fw; first [ out_ok | guard_false Hg ])).
 Qed.
 
@@ -24,11 +24,18 @@ Qed.
 Lemma lock_is_spec_hash fx net d :
   In net all_networks -> standard d = true ->
   (fx_witver fx = true \/ cls_witver_obj d = false) ->
+  fx_tb fx (d_payload d) = d_payload d -> pfx_ok fx net ->
   out_is (lib_out_hash H160 fx net (d_payload d) (Some (stype_name (d_stype d))) (d_witver d) None)
          (spec_lock_script d) (stype_name (d_stype d)) (nw_name net) (OaIs (spec_address net d)).
 Proof.
-  intros Hn Hstd Hg. destruct fx as [fw fn fp]. cbn [fx_witver] in Hg.
-  std_shapes d Hstd; (each_net Hn; (destruct fw; first [ out_ok | guard_false Hg ])).
+  intros Hn Hstd Hg Htb Hp. unfold lib_out_hash.
+  rewrite lib_output_eq;
+    [ | apply tb_of; exact Htb | reflexivity | reflexivity | exact I
+      | cbn [a_addr a_hash a_pubkey a_lock]; destruct (std_payload_cons d Hstd) as (pa & pr & ->); reflexivity ].
+  cbn [a_lock].
+  destruct fx as [fw fn fp tb0]. cbn [fx_witver] in Hg. cbn [fx_tb] in Htb.
+  std_shapes d Hstd; cbn [d_payload] in Htb;
+    (each_net Hn; (destruct fw; first [ guard_false Hg | out_k Htb Hp ])).
 Qed.
 
 (* =========================== foreign networks =========================== *)
@@ -59,8 +66,8 @@ Lemma foreign_refused_obj fx o B :
   fx_netobj fx = true -> lib_obj_network_ok fx o B = false ->
   lib_out_addr_obj H160 fx B o = RErr.
 Proof.
-  intros Hfx Hok. unfold lib_out_addr_obj, lib_output.
-  cbn [a_addr a_hash a_pubkey a_lock a_stype a_witver a_enc a_net].
+  intros Hfx Hok. unfold lib_out_addr_obj, lib_output, lib_args_in.
+  cbn [a_addr a_hash a_pubkey a_lock a_stype a_witver a_enc a_net tb].
   unfold lib_output_k. cbn [a_addr a_hash a_pubkey a_lock a_stype a_witver a_enc a_net].
   rewrite Hfx, Hok. reflexivity.
 Qed.
@@ -69,8 +76,8 @@ Lemma foreign_refused_hd fx o pub w ms B :
   fx_netobj fx = true -> lib_obj_network_ok fx o B = false ->
   lib_out_hd H160 fx B o pub w ms = RErr.
 Proof.
-  intros Hfx Hok. unfold lib_out_hd, lib_output.
-  cbn [a_addr a_hash a_pubkey a_lock a_stype a_witver a_enc a_net].
+  intros Hfx Hok. unfold lib_out_hd, lib_output, lib_args_in.
+  cbn [a_addr a_hash a_pubkey a_lock a_stype a_witver a_enc a_net tb].
   unfold lib_output_k. cbn [a_addr a_hash a_pubkey a_lock a_stype a_witver a_enc a_net].
   rewrite Hfx, Hok. destruct pub; reflexivity.
 Qed.
